@@ -270,6 +270,19 @@ pub fn raw_inputs(ctx: &mut Ctx, rng: &mut Rng, valid: &str) {
     let l = rng.below(10);
     let raw: Vec<u8> = (0..l).map(|_| rng.next_u64() as u8).collect();
     totality(ctx, &raw, "random-bytes", false);
+    // escapes inside unquoted names, and every way of cutting such a path short: a value or an
+    // error, never a panic
+    {
+        let base = *rng.pick(&["$.a\\u{0041}b", "$.store.name\\u{00e9}", "$.c\\u{12}x", "name\\u{00e9}", "$.x:k\\u00e9", "$.a\\u0041 ? (@.b\\u{42} == 1)", "$.\\u{1F48E}", "$.a\\\\b"]);
+        let b = base.as_bytes();
+        for cut in (1..=b.len()).rev().take(12) {
+            totality(ctx, &b[..cut], "escape-in-unquoted-name", false);
+        }
+    }
+    // `@` has no meaning outside a filter, parenthesised or not
+    for t in ["@ > 10", "(@ > 10)", "$.a == 1 && (@.b == 2 || $.c == 3)", "(@.a == 1)", "((@))"] {
+        totality(ctx, t.as_bytes(), "current-item-outside-filter", true);
+    }
     // names and string literals are strings: input that is not UTF-8 cannot be a path
     {
         let mut m = valid.as_bytes().to_vec();
